@@ -1390,6 +1390,90 @@ Proof.
   rewrite E. destruct t; discriminate.
 Qed.
 
+(* ================================================================== *)
+(* the function graft has exactly the documented view                    *)
+
+Definition oc :=
+  fix go (l : list (name * tree)) (ch : list (name * tree)) : list (name * tree) :=
+    match l with
+    | [] => ch
+    | (n, s) :: r => go r (set_child n (overlay s (child_or n ch)) ch)
+    end.
+
+Lemma overlay_dir sch t : overlay (Dir sch) t = Dir (oc sch (as_dir t)).
+Proof. reflexivity. Qed.
+
+Lemma assoc_oc n : forall sch ch0,
+  NoDup (map fst sch) ->
+  assoc n (oc sch ch0) =
+  match assoc n sch with
+  | Some c => Some (overlay c (child_or n ch0))
+  | None => assoc n ch0
+  end.
+Proof.
+  induction sch as [|[k c] sch IH]; intros ch0 ND; [reflexivity|].
+  inversion ND; subst. cbn [oc]. fold oc. rewrite IH by assumption. cbn [assoc].
+  destruct (name_eqbP n k) as [->|N].
+  - rewrite (assoc_notin k sch) by assumption. rewrite assoc_set_child, name_eqb_refl. reflexivity.
+  - unfold child_or. rewrite assoc_set_child. destruct (name_eqbP n k); [contradiction|]. reflexivity.
+Qed.
+
+Definition nothing_below_files (s src : tree) : Prop :=
+  forall r c x, lookup src r = Some (File c) -> x <> [] -> lookup s (r ++ x) = None.
+
+Lemma overlay_look src : forall s,
+  wf_tree src -> nothing_below_files s src ->
+  forall r, look (overlay src s) r = match look src r with Some e => Some e | None => look s r end.
+Proof.
+  induction src as [c|sch IH] using tree_ind2; intros s W NB r.
+  - destruct r as [|m x]; [reflexivity|]. cbn. symmetry. apply look_None.
+    apply (NB [] c (m :: x)); [reflexivity|discriminate].
+  - rewrite overlay_dir. destruct r as [|n x]; [reflexivity|].
+    pose proof W as W0. apply wf_tree_dir in W as [ND F].
+    unfold look at 1 2. cbn [lookup]. rewrite assoc_oc by assumption.
+    destruct (assoc n sch) as [c|] eqn:A.
+    + change (option_map entry_of (lookup (overlay c (child_or n (as_dir s))) x))
+        with (look (overlay c (child_or n (as_dir s))) x).
+      change (option_map entry_of (lookup c x)) with (look c x).
+      rewrite Forall_forall in IH. pose proof (assoc_In_pair _ _ _ A) as Ic.
+      rewrite (IH (n, c) Ic); cbn [snd].
+      * destruct (look c x) as [e|] eqn:LC; [reflexivity|].
+        assert (Hx : x <> []) by (intros ->; discriminate LC).
+        unfold look, child_or. destruct s as [c0|ch0]; cbn.
+        -- rewrite lookup_empty_dir by assumption. reflexivity.
+        -- destruct (assoc n ch0); [reflexivity|]. rewrite lookup_empty_dir by assumption. reflexivity.
+      * eapply wf_child; eauto.
+      * intros r0 c0 x0 L0 Hx0.
+        assert (L1 : lookup (Dir sch) (n :: r0) = Some (File c0)) by (simpl; rewrite A; exact L0).
+        specialize (NB (n :: r0) c0 x0 L1 Hx0). unfold child_or.
+        destruct s as [c1|ch0]; cbn in *.
+        -- apply lookup_empty_dir. destruct r0; [assumption|discriminate].
+        -- destruct (assoc n ch0); [exact NB|].
+           apply lookup_empty_dir. destruct r0; [assumption|discriminate].
+    + destruct s as [c0|ch0]; reflexivity.
+Qed.
+
+Lemma graft_placed fs A src :
+  wf_tree src -> compat fs A src ->
+  forall q, look (graft fs A src) q = placed fs A src q.
+Proof.
+  intros W [NF C] q. unfold graft, placed. rewrite look_update_at.
+  destruct (strip_prefix A q) as [r|] eqn:SP; [|reflexivity].
+  apply strip_prefix_Some in SP. subst q. rewrite overlay_look; auto.
+  - destruct (look src r) as [e|] eqn:LS; [reflexivity|].
+    assert (Hr : r <> []) by (intros ->; discriminate LS).
+    rewrite look_app. unfold sub_or. destruct (lookup fs A); [reflexivity|].
+    apply look_None. apply lookup_empty_dir. assumption.
+  - intros r0 c x L Hx. specialize (C r0 _ L). cbn in C. unfold sub_or.
+    destruct (lookup fs A) as [s|] eqn:E.
+    + pose proof (lookup_app fs A r0) as E1. rewrite E in E1.
+      rewrite lookup_app. rewrite <- E1.
+      destruct (lookup fs (A ++ r0)) as [[c1|ch1]|] eqn:E2; auto.
+      * destruct x; [congruence|reflexivity].
+      * exfalso. eapply C; reflexivity.
+    + apply lookup_empty_dir. destruct r0; [assumption|discriminate].
+Qed.
+
 (* names used by the witnesses: "foo", "x", "y", "a" *)
 Definition n_foo : name := [102; 111; 111].
 Definition n_x : name := [120].
